@@ -767,6 +767,11 @@ func (e *Env) trAddr(x Expr) *Addr {
 			}
 		}
 	case *Call:
+		if x.Fun == "cellat" && len(x.Args) == 2 {
+			t := vc.typeArg(x.Args[0])
+			r, _ := e.tr(x.Args[1])
+			return &Addr{Kind: aHeap, Ref: r, BaseT: t}
+		}
 		if x.Fun == "captured" && len(x.Args) == 2 {
 			id, ok1 := x.Args[0].(*Ident)
 			vn, ok2 := x.Args[1].(*Ident)
@@ -875,8 +880,11 @@ func (e *Env) trCall(x *Call) Val {
 		if fn == nil && e.binds != nil {
 			fn = e.binds[id.Name]
 		}
+		if fn == nil && e.fr != nil {
+			fn = vc.fnOfName(e.fr, id.Name)
+		}
 		if fn == nil {
-			specFail("captured: parameter %s is not bound to a closure", id.Name)
+			specFail("captured: %s is not bound to a known closure", id.Name)
 		}
 		cv := e.trVal(x.Args[0])
 		for i, fv := range fn.FreeVars {
@@ -1080,4 +1088,39 @@ func (vc *VC) parseGoType(s string) types.Type {
 		specFail("unknown type %s", s)
 	}
 	return t
+}
+
+// fnOfName: the closure function held by a local or captured func-typed variable that is assigned exactly once
+func (vc *VC) fnOfName(fr *Frame, name string) *ssa.Function {
+	for _, fv := range fr.fn.FreeVars {
+		if fv.Name() == name {
+			fn := fv.Parent()
+			par := fn.Parent()
+			if par == nil {
+				return nil
+			}
+			for i, f2 := range fn.FreeVars {
+				if f2 != fv {
+					continue
+				}
+				for _, b := range par.Blocks {
+					for _, in := range b.Instrs {
+						if mc, ok := in.(*ssa.MakeClosure); ok && mc.Fn == fn && i < len(mc.Bindings) {
+							if al, ok := mc.Bindings[i].(*ssa.Alloc); ok {
+								return vc.singleStoreFn(fr, al, 0)
+							}
+						}
+					}
+				}
+			}
+		}
+	}
+	for _, b := range fr.fn.Blocks {
+		for _, in := range b.Instrs {
+			if al, ok := in.(*ssa.Alloc); ok && al.Comment == name {
+				return vc.singleStoreFn(fr, al, 0)
+			}
+		}
+	}
+	return nil
 }
